@@ -70,7 +70,8 @@ pub fn reference_transcript<B: SimField>(case: &Case<B>, verifier: bool) -> Mode
         st.push(Expect::Draws(a.num_rands, deg, "auxiliary segment randomness"));
         st.push(Expect::Reseed("auxiliary trace commitment"));
     }
-    let n_coeff = s.rules.len() + aux_plain + s.assertions.len() + aux_plain + if lagrange { log_n + 1 } else { 0 };
+    let aux_assertions = s.aux.as_ref().map(|a| a.num_assertions()).unwrap_or(0);
+    let n_coeff = s.rules.len() + aux_plain + s.assertions.len() + aux_assertions + if lagrange { log_n + 1 } else { 0 };
     st.push(Expect::Draws(n_coeff, deg, "constraint composition coefficients"));
     st.push(Expect::Reseed("constraint commitment"));
     st.push(Expect::Draws(1, deg, "out-of-domain point z"));
